@@ -298,6 +298,10 @@ def ancestors(prog, i):
 def oracle_C05(r):
     bad = []
     prog = r["prog"]
+    rt = r.get("res_td")
+    if rt and sorted(rt["expected"]) != sorted(rt["ran"]):
+        bad.append(("C05:resource-teardown", f"resources {sorted(rt['expected'])} were registered by components with a "
+                    f"teardown callback; when the surrounding context was left the callbacks of {sorted(rt['ran'])} ran"))
     log = [o for _, o in flat_obs(r)]
     pos = {}
     for idx, o in enumerate(log):
@@ -365,6 +369,10 @@ def oracle_C05(r):
             bad.append(("C05:ownership", f"teardown callbacks registered {sorted(tds)}, run when the surrounding context "
                         f"was left: {sorted(r['teardown'])}"))
     bad += [("C05:acyclic-pattern-stuck", w) for sig, w in stuck_check(r) if sig == "C06:stuck"]
+    o = r["outcome"]
+    has_fail = any(a[0] == "Fail" for c in r["prog"] for st_ in ("prep", "start") for sg in c[st_] for a in sg)
+    if o and o["k"] == "error" and not has_fail and o["cause"][0] != "conflict":
+        bad.append(("C05:acyclic-pattern-failed", f"no component raises, yet startup failed instead of completing: {o}"))
     return bad
 
 
